@@ -802,7 +802,9 @@ class Eval:
             return self.inline_ret(cb, {i + 1: x for i, x in enumerate(args)}, env.depth + 1, site_path(site))
         # ---- iteration ----
         if cid == "std::iter::Iterator::next":
-            return ("opt", ("elem", args[0]), frozenset([("has_next", args[0])]))
+            # the element carries the identity of the loop it is drawn in (the `next` call site): two nested loops over
+            # equal iterator terms stay distinct; effects.base_iter / norm_elems drop the marker again
+            return ("opt", ("elem", ("drv", args[0], ("next",) + tuple(site))), frozenset([("has_next", args[0])]))
         ct = ("call", cid, head, tuple(args), site)
         self.site_conds.setdefault(site[:2], []).append(self.ambient)
         self.site_terms.setdefault(site[:2], []).append(ct)
